@@ -5,6 +5,8 @@ import (
 	"fmt"
 	"io"
 	"math/rand/v2"
+	"runtime"
+	"sort"
 	"strings"
 	"time"
 	"unicode/utf8"
@@ -24,6 +26,7 @@ type c01Case struct {
 	Aliases map[string]string `json:"aliases,omitempty"`
 	AllKind bool              `json:"all_kinds,omitempty"` // deliver through all four source kinds
 	Flaky   bool              `json:"flaky,omitempty"`     // deliver through readers with one transient failure, at every position
+	Shape   string            `json:"shape,omitempty"`     // a scaling family (work-bound probe)
 	Kind    string            `json:"kind"`
 }
 
@@ -143,7 +146,64 @@ func c01Quiesce(c *core.Ctx) {
 	c01Base = n
 }
 
+// c01Shapes are input families that scale with n; the work the parser does on
+// them must grow about linearly.  Work is measured in bytes allocated during the
+// call (a logical quantity, not wall-clock time): S(4n) / S(n) <= 7.
+var c01Shapes = map[string]func(n int) string{
+	"heredoc-plain-lines":  func(n int) string { return "cat <<E\n" + strings.Repeat("line of text\n", n) + "E\n" },
+	"heredoc-quoted-lines": func(n int) string { return "cat <<'E'\n" + strings.Repeat("line of text\n", n) + "E\n" },
+	"heredoc-expansions":   func(n int) string { return "cat <<E\n" + strings.Repeat("a $x `c` \\$ b\n", n) + "E\n" },
+	"heredoc-dash-tabs":    func(n int) string { return "cat <<-E\n" + strings.Repeat("\tline\n", n) + "\tE\n" },
+	"commands-in-braces":   func(n int) string { return "{ " + strings.Repeat("a b c; ", n) + "}\n" },
+	"commands-on-lines":    func(n int) string { return "{\n" + strings.Repeat("a b c\n", n) + "}\n" },
+	"arguments":            func(n int) string { return "echo" + strings.Repeat(" arg", n) + "\n" },
+	"long-word":            func(n int) string { return "echo " + strings.Repeat("ab", n) + "\n" },
+	"quoted-parts":         func(n int) string { return "echo " + strings.Repeat("'a'\"b\"\\c$d", n) + "\n" },
+	"pipeline":             func(n int) string { return "a" + strings.Repeat(" | a", n) + "\n" },
+	"and-or":               func(n int) string { return "a" + strings.Repeat(" && a || b", n) + "\n" },
+	"case-items":           func(n int) string { return "case x in " + strings.Repeat("a|b) c ;; ", n) + "esac\n" },
+	"elif-chain":           func(n int) string { return "if a; then b; " + strings.Repeat("elif a; then b; ", n) + "fi\n" },
+	"nested-subshells":     func(n int) string { return strings.Repeat("( ", n) + "a" + strings.Repeat(" )", n) + "\n" },
+	"nested-cmdsubst":      func(n int) string { return "echo " + strings.Repeat("$(a ", n/4) + strings.Repeat(")", n/4) + "\n" },
+	"nested-braces-param":  func(n int) string { return "echo " + strings.Repeat("${a:-", n) + "b" + strings.Repeat("}", n) + "\n" },
+	"comments":             func(n int) string { return "{\n" + strings.Repeat("# comment line\na\n", n) + "}\n" },
+	"line-continuations":   func(n int) string { return "echo" + strings.Repeat(" \\\na", n) + "\n" },
+	"redirections":         func(n int) string { return "a" + strings.Repeat(" >f 2>&1", n) + "\n" },
+	"arith":                func(n int) string { return "echo $((" + strings.Repeat("1 + ", n) + "1))\n" },
+}
+
+func c01Work(src string) (alloc uint64, err error) {
+	var m0, m1 runtime.MemStats
+	runtime.ReadMemStats(&m0)
+	_, _, err = parser.ParseCommands(nil, "c01", src)
+	runtime.ReadMemStats(&m1)
+	return m1.TotalAlloc - m0.TotalAlloc, err
+}
+
+func c01Scaling(c *core.Ctx, cs c01Case) {
+	f := c01Shapes[cs.Shape]
+	n := 1500
+	a1, err1 := c01Work(f(n))
+	a4, err4 := c01Work(f(4 * n))
+	c.Eval(2)
+	c01Quiesce(c)
+	c.Count("scaling-shapes", 1)
+	if (err1 == nil) != (err4 == nil) {
+		c.Violation("scaling", "scaling: "+cs.Shape, "the same verdict at both sizes", fmt.Sprintf("n=%d: %v; n=%d: %v", n, err1, 4*n, err4), "")
+		return
+	}
+	ratio := float64(a4) / float64(a1+1)
+	c.Max("max_alloc_ratio_x100", int64(100*ratio))
+	if ratio > 7 {
+		c.Violation("work-bound", "scaling: "+cs.Shape, "bytes allocated grow about linearly with the input (x4 input -> <= x7)", fmt.Sprintf("n=%d: %d bytes, n=%d: %d bytes (x%.1f)", n, a1, 4*n, a4, ratio), "")
+	}
+}
+
 func c01Exec(c *core.Ctx, cs c01Case) {
+	if cs.Shape != "" {
+		c01Scaling(c, cs)
+		return
+	}
 	var env *interp.ExecEnv
 	if len(cs.Aliases) > 0 {
 		env = interp.NewExecEnv("sh")
@@ -330,6 +390,15 @@ func c01Gen(c *core.Ctx) {
 		}
 		core.Do(c, c01Case{Src: []byte(strings.Join(parts, " ")), Flaky: true, Kind: "flaky-token-string"}, c01Exec)
 	})
+	// 1c. scaling families: work grows about linearly
+	var shapes []string
+	for k := range c01Shapes {
+		shapes = append(shapes, k)
+	}
+	sort.Strings(shapes)
+	for _, k := range shapes {
+		core.Do(c, c01Case{Shape: k, Kind: "scaling"}, c01Exec)
+	}
 	// 2. exhaustive character strings
 	enumStrings(c01Chars, 0, c.Pick(4, 5), func(s string, _ []int) {
 		core.Do(c, c01Case{Src: []byte(s), Kind: "char-string"}, c01Exec)
